@@ -653,7 +653,7 @@ func ruleProcessLoopEnds(c *Ctx, rule string) {
 			ob := r.Ob(rule, fmt.Sprintf("%s: the loop ends once the body's status is %s", fnName(fn), name), c.pos(fn.Pos()))
 			w := &World{Fn: fn,
 				Seed: func(v ssa.Value) (constant.Value, bool) {
-					if f, ok := v.(*ssa.Field); ok && f.Field == statusIdx && types.Identical(f.X.Type(), psT) {
+					if statusReadOf(v, psT, statusIdx) {
 						return kv, true
 					}
 					return nil, false
@@ -671,6 +671,32 @@ func ruleProcessLoopEnds(c *Ctx, rule string) {
 			var bad []string
 			for _, comp := range rem {
 				if countingExit(comp) {
+					continue
+				}
+				// the cycle may be an artefact of joining the first round with the later ones at the loop head (a flag that is
+				// false on entry and true after the body): start behind each call of the cycle instead and ask whether that call
+				// can be reached again
+				again := false
+				ncalls := 0
+				for _, b := range comp {
+					for idx, in := range b.Instrs {
+						call, ok := in.(*ssa.Call)
+						if !ok {
+							continue
+						}
+						sc := call.Call.StaticCallee()
+						if sc == nil || !c.isRepoFn(sc) {
+							continue
+						}
+						ncalls++
+						w2 := &World{Fn: fn, StartBlock: b, StartIndex: idx + 1, Seed: w.Seed, CellDefault: w.CellDefault}
+						w2.Run()
+						if w2.Reentered {
+							again = true
+						}
+					}
+				}
+				if ncalls > 0 && !again {
 					continue
 				}
 				for _, b := range comp {
@@ -941,7 +967,7 @@ func ruleReturnStopsStatements(c *Ctx, rule string) {
 			// the analysis begins right behind the statement: can the same call be reached again?
 			return &World{Fn: fn, StartBlock: call.Block(), StartIndex: idx + 1,
 				Seed: func(v ssa.Value) (constant.Value, bool) {
-					if f, ok := v.(*ssa.Field); ok && f.Field == statusIdx && types.Identical(f.X.Type(), psT) {
+					if statusReadOf(v, psT, statusIdx) {
 						return kv, true
 					}
 					return nil, false
@@ -1035,4 +1061,22 @@ func ruleReturnStopsStatements(c *Ctx, rule string) {
 		}
 	}
 	r.Floor(rule, "loops that run process statements", n, 1)
+}
+
+// statusReadOf: v reads the status field of a process state - of a state held by value, or (methods on *ProcessState) of the state
+// behind a pointer that is not a local of the function.
+func statusReadOf(v ssa.Value, psT types.Type, statusIdx int) bool {
+	switch x := v.(type) {
+	case *ssa.Field:
+		return x.Field == statusIdx && types.Identical(x.X.Type(), psT)
+	case *ssa.UnOp:
+		if x.Op != token.MUL {
+			return false
+		}
+		if fa, ok := x.X.(*ssa.FieldAddr); ok && fa.Field == statusIdx && types.Identical(deref(fa.X.Type()), psT) {
+			_, isLocal := fa.X.(*ssa.Alloc)
+			return !isLocal
+		}
+	}
+	return false
 }
